@@ -127,6 +127,9 @@ def _model_spec(rng, mid):
                                            patterns=('random', 'chain', 'star', 'weak'))
         spec['truncated'] = rng.randint(1, 4)
         spec['poison'] = rng.choice(['zero', 'nan', 'noise'])
+        if rng.random() < 0.3:
+            # the documented ``model`` attribute: marginals of another family than the default
+            spec['vine_model'] = rng.choice([zoo.UNI_FAMILIES[0], zoo.UNI_FAMILIES[6]])
         if rng.random() < 0.5:
             d = len(spec['data']['margs'])
             spec['data']['names'] = ['z%d' % (d - i) for i in range(d)]
@@ -137,6 +140,10 @@ def _vias(kind):
     v = ['dict_own', 'dict_generic', 'file']
     if kind in ('uni', 'biv', 'gmv'):
         v.append('json')
+    if kind == 'uni':
+        # the inherited from_dict reached through ANOTHER family's class: it dispatches on the
+        # recorded type all the same (this is how a vine rebuilds its marginals)
+        v.append('dict_sibling')
     return v
 
 
@@ -151,6 +158,8 @@ def generate(rng, tier, idx):
             ops.append({'op': 'app_draw', 'k': rng.randint(1, 40)})
         via = rng.choice(_vias(kinds[m]))
         op = {'op': 'hop', 'm': m, 'via': via}
+        if via == 'dict_sibling':
+            op['sibling'] = rng.randrange(7)
         if via == 'file':
             op['path'] = rng.choice(PATHS)
             if rng.random() < fault_rate:
@@ -262,7 +271,7 @@ def _expected_class(orig):
 def _hop(model, kind, op, fs, ctx):
     """Perform one hop on ``model``; returns ('ok', copy) / ('exc', e) / ('skip', why)."""
     via = op['via']
-    if via in ('dict_own', 'dict_generic', 'json'):
+    if via in ('dict_own', 'dict_generic', 'json', 'dict_sibling'):
         d = outcome(model.to_dict)
         if d[0] != 'ok':
             return ('skip', 'to_dict:' + outcome_class(d))
@@ -276,6 +285,10 @@ def _hop(model, kind, op, fs, ctx):
         if via == 'dict_generic':
             ctx.probes['generic_dispatch_hop'] += 1
             fn = _generic_from_dict(kind)
+        elif via == 'dict_sibling':
+            ctx.probes['sibling_class_dispatch_hop'] += 1
+            others = [c for c in zoo.UNI_FAMILIES if zoo.short(c) != type(model).__name__]
+            fn = zoo.load_class(others[op.get('sibling', 0) % len(others)]).from_dict
         else:
             fn = type(model).from_dict
         r = outcome(fn, payload)
@@ -356,7 +369,7 @@ def execute(run):
                     'bw_scalar': isinstance(bw, float),
                     'edge_param': bool(spec.get('edge_param'))}
             subject = spec['cls'] + '.' + {'dict_own': 'from_dict', 'dict_generic': 'from_dict',
-                                           'json': 'from_dict', 'file': 'save_load'}[op['via']]
+                                           'json': 'from_dict', 'file': 'save_load'}.get(op['via'], 'from_dict')
             r = _hop(rec['cur'], kind, op, fs, ctx)
             ctx.stats['hops'] += 1
             rec['hops'].append(op['via'])
